@@ -21,14 +21,15 @@ ClassesOf(ty) ==
     [] ty = "number102" -> {"zero", "max_full_scale", "min_full_scale", "smallest_step"}
     [] ty = "int" -> {"zero", "int64max", "int64min", "neg"}
     [] ty = "float" -> {"zero", "maxfloat", "denormal", "negative", "fraction"}
-    [] ty = "varchar" -> {"empty", "plain", "unicode", "quote", "newline", "long", "dollar", "percent"}
+    [] ty = "varchar" -> {"empty", "plain", "unicode", "quote", "newline", "long", "dollar", "percent", "bslash", "nopword"}
     [] ty = "date" -> {"epoch", "pre1970", "min", "max", "leapday"}
     [] ty = "time" -> {"midnight", "usec", "last"}
     [] ty \in {"ts_ntz", "ts_tz"} -> {"epoch", "pre1970_usec", "usec", "far"}
     [] ty = "binary" -> {"empty", "ascii", "nulbyte", "highbytes"}
     [] ty \in {"variant", "object", "array"} -> {"flat", "nested", "unicode"}
 \* write_pandas_chunked: write_pandas with an explicit chunk_size that does not divide (or exceeds) the number of rows
-Paths == {"literal", "pyformat", "qmark", "insert_select", "ctas", "clone", "write_pandas", "write_pandas_chunked"}
+\* literal_script: the INSERT with literals given to connection.execute_string
+Paths == {"literal", "literal_script", "pyformat", "qmark", "insert_select", "ctas", "clone", "write_pandas", "write_pandas_chunked"}
 
 InitSt == [x |-> 0]
 \*  res    : "ok" | "err"
@@ -41,7 +42,7 @@ Expected(op, D) ==
   {Obs("ok", TRUE, PyClass(op.ty), "ok")}
   \cup (IF "C01.number_scale0_as_decimal" \in D /\ op.ty = "number38" THEN {Obs("ok", TRUE, "Decimal", "ok")} ELSE {})
   \* as built a text literal cast to BINARY is taken as UTF-8 text, not as hex digits
-  \cup (IF "C01.binary_text_is_not_hex" \in D /\ op.ty = "binary" /\ op.path = "literal" THEN {Obs("ok", FALSE, "bytes", "ok"), Obs("err", FALSE, "none", "ok")} ELSE {})
+  \cup (IF "C01.binary_text_is_not_hex" \in D /\ op.ty = "binary" /\ op.path \in {"literal", "literal_script"} THEN {Obs("ok", FALSE, "bytes", "ok"), Obs("err", FALSE, "none", "ok")} ELSE {})
   \* as built a bytes parameter is rendered as X'..', which the engine cannot cast
   \cup (IF "C01.bytes_parameter_rejected" \in D /\ op.ty = "binary" /\ op.path \in {"pyformat", "qmark"} THEN {Obs("err", FALSE, "none", "ok")} ELSE {})
   \* as built the engine's client converts a Python int beyond 64 bits through a double: 38-digit values cannot be bound natively
@@ -49,7 +50,7 @@ Expected(op, D) ==
         THEN {Obs("err", FALSE, "none", "ok")} ELSE {})
   \* as built text of the form $word inside a string literal of the statement is taken for a session variable reference
   \* (the same defect as C15.ref_in_string_literal): rejected when the variable does not exist, rewritten when it does
-  \cup (IF "C01.dollar_word_in_text_literal" \in D /\ op.ty = "varchar" /\ op.vc = "dollar" /\ op.path = "literal" /\ op.nulls # "all"
+  \cup (IF "C01.dollar_word_in_text_literal" \in D /\ op.ty = "varchar" /\ op.vc = "dollar" /\ op.path \in {"literal", "literal_script"} /\ op.nulls # "all"
         THEN {Obs("err", FALSE, "none", "ok"), Obs("ok", FALSE, "str", "ok")} ELSE {})
 Steps(st, op, D) == {R(st, o) : o \in Expected(op, D)}
 
